@@ -1,6 +1,26 @@
 import LyModel.Props.C06
+import LyModel.Props.C06UO
+import LyModel.Props.C06UOList
+import LyModel.Props.C06UONb
+import LyModel.Props.C06UONest
 #print axioms LyModel.Props.C06.userord_apply_diff
 #print axioms LyModel.Props.C06.diff_self_empty
 #print axioms LyModel.Props.C06.apply_diff_partial
 #print axioms LyModel.Props.C06.apply_diff_fails
 #print axioms LyModel.Props.C06.apply_respects_obs
+#print axioms LyModel.Props.C06UO.userord_core_apply_diff
+#print axioms LyModel.Props.C06UO.diff_userord_flat_ll_sim
+#print axioms LyModel.Props.C06UO.apply_userord_flat_ll_sim
+#print axioms LyModel.Props.C06UO.apply_diff_userord_flat_ll
+#print axioms LyModel.Props.C06UO.apply_diff_userord_flat_ll_dec
+#print axioms LyModel.Props.C06UO.diff_userord_flat_kl_sim
+#print axioms LyModel.Props.C06UO.apply_userord_flat_kl_sim
+#print axioms LyModel.Props.C06UO.apply_diff_userord_flat_kl
+#print axioms LyModel.Props.C06UO.apply_diff_userord_flat_kl_dec
+#print axioms LyModel.Props.C06UO.insertUO_among_neighbours
+#print axioms LyModel.Props.C06UO.diff_userord_ll_neighbours_sim
+#print axioms LyModel.Props.C06UO.apply_diff_userord_ll_neighbours
+#print axioms LyModel.Props.C06UO.apply_diff_userord_ll_neighbours_dec
+#print axioms LyModel.Props.C06UO.diff_userord_ll_in_container_sim
+#print axioms LyModel.Props.C06UO.apply_diff_userord_ll_in_container
+#print axioms LyModel.Props.C06UO.apply_diff_userord_ll_in_container_dec
